@@ -28,6 +28,7 @@ import (
 	"github.com/apex/log/handlers/discard"
 	"github.com/go-chi/jwtauth/v5"
 	"github.com/gofrs/uuid"
+	"github.com/taskctl/taskctl/pkg/runner"
 
 	"github.com/Flowpack/prunner"
 	"github.com/Flowpack/prunner/definition"
@@ -49,6 +50,11 @@ func TestScripts(t *testing.T) {
 		t.Skip("VERIF_SCRIPTS / VERIF_TRACE not set")
 	}
 	log.SetHandler(discard.Default)
+	taskctl.VerifPollGate = func(r runner.Runner) {
+		if f, ok := r.(*fakeRunner); ok {
+			f.passGate()
+		}
+	}
 	f, err := os.Open(in)
 	if err != nil {
 		t.Fatal(err)
@@ -306,7 +312,7 @@ func buildDefs(sc *Script, cur []int) *definition.PipelinesDef {
 }
 
 func runScript(t *testing.T, sc *Script, of io.Writer) {
-	w := &world{sc: sc, t0: time.Now(), out: json.NewEncoder(of), byID: map[uuid.UUID]*jobInfo{}}
+	w := &world{sc: sc, t0: time.Now(), out: json.NewEncoder(of), byID: map[uuid.UUID]*jobInfo{}, gateFree: make(chan struct{})}
 	e := &env{t: t, w: w, sc: sc}
 	e.dir = t.TempDir()
 	e.gen = 0
@@ -378,7 +384,11 @@ func (e *env) step(s Step) {
 	case "adv":
 		time.Sleep(time.Duration(s.Ms) * time.Millisecond)
 	case "poll":
-		if !e.sleepToPoll(s.J) {
+		if e.sc.Gated {
+			if !e.gatedPoll(s.J) {
+				last.Res = "skip"
+			}
+		} else if !e.sleepToPoll(s.J) {
 			last.Res = "skip"
 		}
 	case "fire":
@@ -450,7 +460,13 @@ func (e *env) step(s Step) {
 	e.snapshot()
 	w.mu.Lock()
 	w.st.Last = last
+	w.st.Conf = ConfObs{}
+	if e.sc.Gated {
+		// the abstract state after this step, in the vocabulary of the model (compared with the specification by lib/conform.py)
+		w.st.Conf = ConfObs{Has: true, Proj: w.projection()}
+	}
 	w.emit(Event{K: evk, J: last.J, T: last.T, O: last.O})
+	w.st.Conf = ConfObs{}
 	w.mu.Unlock()
 	// steps are separated by 1 ms of virtual time
 	time.Sleep(time.Millisecond)
@@ -617,6 +633,25 @@ func (e *env) http(method, url string, body []byte) (int, []byte) {
 	return rec.Code, rec.Body.Bytes()
 }
 
+// gatedPoll: the loop of job j is parked at its gate (or still in its 50 ms pause): let the pause end, release one iteration
+func (e *env) gatedPoll(j int) bool {
+	w := e.w
+	if j < 1 || j > len(w.jobs) {
+		return false
+	}
+	ok := false
+	_ = e.pr.ReadJob(w.jobs[j-1].id, func(pj *prunner.PipelineJob) { ok = pj.Start != nil && !pj.Completed })
+	if !ok {
+		return false
+	}
+	time.Sleep(50 * time.Millisecond)
+	synctest.Wait()
+	for _, f := range w.jobs[j-1].runners {
+		f.releaseGate()
+	}
+	return true
+}
+
 // sleepToPoll advances the virtual clock to the next wake-up of job j's scheduler
 // loop (start + k*50ms), as computed from the reported Start.
 func (e *env) sleepToPoll(j int) bool {
@@ -686,12 +721,24 @@ func (e *env) drain() {
 		}
 	}
 	limit := 60 + maxDelay/50
+	if e.sc.Gated {
+		// long delays: skip ahead to the expiry of pending timers instead of 50 ms steps
+		limit = 200
+	}
 	idle := 0
 	for i := 0; i < limit && idle < 3; i++ {
 		n := e.releaseAll("ok")
 		synctest.Wait()
 		time.Sleep(50 * time.Millisecond)
 		synctest.Wait()
+		if e.sc.Gated {
+			for _, ji := range w.jobs {
+				for _, f := range ji.runners {
+					f.releaseGate()
+				}
+			}
+			synctest.Wait()
+		}
 		busy := n > 0
 		pendingTimer := false
 		e.pr.IterateJobs(func(j *prunner.PipelineJob) {
@@ -714,6 +761,10 @@ func (e *env) drain() {
 		} else {
 			idle++
 		}
+		if e.sc.Gated && !busy && pendingTimer {
+			time.Sleep(time.Second)
+			synctest.Wait()
+		}
 	}
 	w.mu.Lock()
 	if w.st.Phase == "run" {
@@ -725,6 +776,7 @@ func (e *env) drain() {
 }
 
 func (e *env) teardown() {
+	close(e.w.gateFree)
 	for _, f := range e.olds {
 		f()
 	}
